@@ -66,7 +66,7 @@ def run_traces(ctx: Ctx, own: str, scenarios: List[dict]) -> List[dict]:
 def run(ctx: Ctx) -> None:
     from props import schedmodel as sm
     rng = random.Random(ctx.seed * 7919 + 10)
-    n = ctx.pick(300, 5000)
+    n = ctx.pick(400, 15000)
     scenarios = [qf.gen_c10(rng, 'c10-%d' % k, ctx.thorough) for k in range(n)]
     # binding 1: the implementation-shaped scheduler model against the contract, exhaustively
     info = sm.check_models(ctx)
